@@ -138,6 +138,20 @@ add("C09",
     "is not elitist and not claimed. Axiom-free.",
     "Rocq/Coq proof (corollaries over the C08/C10/C11 models) + monitor over real evolutions")
 
+add("C20",
+    "Coq theorems over exact rationals about the TRANSLATED Gram-polynomial weight functions (regenerated from "
+    "implicit_regression.py on every run) and a model of _savitzky_golay_gram / _calculate_partials / the implicit fitness: the "
+    "recursion fuel is never exhausted; the centre column is [22,-67,-58,0,58,67,-22]/252; every one of the 7 columns returns the "
+    "exact derivative of any cubic (ring); the filter never indexes outside a trajectory of >= 7 samples and is exact at every "
+    "sample of a cubic; _calculate_partials keeps rows start+3..end-5 of each NaN-separated trajectory and returns exactly the "
+    "derivatives of each trajectory's own cubic; trajectories are isolated; the fitness lies in [0,1], is invariant under scaling "
+    "the equation by any non-zero constant and is 0 for an exact invariant. Tie: translator for the weight functions, index "
+    "regimes and trimming constants; correspondence of the whole pipeline on integer data (252*dx_dt compared exactly inside Coq).",
+    "Trusted: Coq kernel + vm_compute (the weight table is computed in Coq from the translated functions); tr_sg.py; the harness. "
+    "'Exactly' is over Q: float64 rounding of weights and sums is not modelled. required_params and non-default metrics are outside "
+    "the model. Axiom-free (no real-number axioms needed).",
+    "Rocq/Coq proof over Q (ring/field, induction over segments) on a translated model + differential correspondence")
+
 NOT_APPLICABLE = []
 def main():
     props = [json.loads(l)["id"] for l in open(os.path.join(HERE, "properties.jsonl"))]
